@@ -44,6 +44,10 @@ type rbox struct {
 }
 
 type refDoc struct {
+	// root is the root element's box (html, margin 0): it establishes the block formatting
+	// context, so its margins do not collapse and its auto height runs from the top margin
+	// edge of its first child to the bottom margin edge of its last child (§10.6.7).
+	root  *rbox
 	boxes []*rbox // pre-order, boxes[0] = body
 	comp  []int   // union-find over margin nodes
 	// ambiguous: the document holds a box of used height 0 without padding/border whose
@@ -455,7 +459,14 @@ func buildRef(doc *docSpec, emptyReading bool) *refDoc {
 	body.verticalValues()
 	d.adjoining(emptyReading)
 	c := &cursor{d: d, done: map[int]bool{}}
+	d.root = &rbox{spec: newBox("html"), hAuto: true, observable: true, cbw: doc.pageW, bw: doc.pageW}
+	c.events = append(c.events, event{kind: evTop, box: d.root})
 	c.place(body)
+	c.flush()
+	d.root.rawBottom = c.y
+	d.root.ch = math.Max(0, c.y)
+	d.root.bh = d.root.ch
+	c.events = append(c.events, event{kind: evBottom, box: d.root})
 	for _, r := range d.boxes {
 		r.observable = !r.through && (r.bh > 0 && r.bw > 0 || r.hasLine)
 	}
